@@ -52,6 +52,14 @@ def renderArg (a : ArgCall) : List Tok :=
      | .chr _ => ts
      | .pair b e => (if b = 123 then Tok.bg false else .ch b) :: (ts ++ [if e = 125 then Tok.eg false else .ch e]))
 
+/-- the text of one argument as written, without the blanks in front of it: what the invocation records as its source -/
+def argBody (a : ArgCall) : List Tok := renderArg ⟨a.spec, 0, a.content⟩
+
+/-- the recorded source of the whole invocation (`argSource`): the arguments as written, blanks between them dropped -/
+def callSource : List ArgCall → List Tok
+  | [] => []
+  | a :: as => argBody a ++ callSource as
+
 def renderCall : List ArgCall → List Tok
   | [] => []
   | a :: as => renderArg a ++ renderCall as
